@@ -228,7 +228,21 @@ def check_bay(case):
                 break
     except Exception as e:
         fails.append(fail('StiffPanelBay.calc_cA raises', sig='C19:bay-calc_cA-raises', case=case, error=repr(e)[:300]))
-    return dict(fails=fails, execs=2, transitions=2, nontrivial=1)
+    # history: the flow direction of the bay changed after panels were added and matrices were evaluated
+    try:
+        other = 'y' if case['flow'] == 'x' else 'x'
+        spb.flow = other
+        spb.beta, spb.gamma = beta, gamma
+        K3 = pan.dense(spb.calc_kA(silent=True))
+        g3 = gamma if (case['model'] == 'cpanel' and other == 'x') else 0.0
+        Kr3 = np.zeros((size, size))
+        Kr3[:ref.size, :ref.size] = ref.kA(beta, g3, other)
+        if np.abs(K3 - Kr3).max() > 1e-11 * (np.abs(Kr3).max() + 1e-300):
+            fails.append(fail('bay kA does not follow the flow direction changed after the panels were added / after an earlier evaluation', sig=None,
+                              case=case, new_flow=other))
+    except Exception as e:
+        fails.append(fail('StiffPanelBay.calc_kA raised after the flow direction was changed', sig=None, case=case, error=repr(e)[:300]))
+    return dict(fails=fails, execs=3, transitions=3, nontrivial=1)
 
 
 def check_baymach(case):
